@@ -424,6 +424,8 @@ def main(argv):
         else:
             viol.append((u, f))
     wit = None
+    # the witnesses of open known findings are watched: one that PASSES means the behaviour changed (reported as a NOTE)
+    os.environ['VERIF_WATCH_IDS'] = json.dumps([k['witness'] for k in kf if k.get('witness')])
     need_witness = bool(viol) or bool(undecided) or tier == 'thorough' or any(k.get('witness') for k in kf)
     if need_witness or os.environ.get('VERIF_WITNESS', '1') == '1':
         try:
@@ -477,6 +479,8 @@ def main(argv):
     elif vacuous:
         rc = 2
         out_lines.append('UNDECIDED property=%s vacuous contracts: %s' % (prop, ', '.join(vacuous)))
+    for wid in (wit or {}).get('watch_passed', []):
+        print('NOTE property=%s the listed known finding no longer fails (behaviour changed, review known_findings.txt): %s' % (prop, wid))
     if wit and wit.get('error'):
         print('WARNING property=%s witness layer did not run: %s' % (prop, str(wit.get('error'))[:300]))
         if wit.get('stderr'):
